@@ -232,7 +232,7 @@ def huge_collections(thorough):
     for n_crowd in sorted(n for n in sizes if n >= 2):
         crowd = [(100 + k, (40 - k % 7, 40 - k % 5, 60 + k % 3, 60 + k % 11)) for k in range(n_crowd)]
         for n_marks in (1, 2, 3, 4):
-            marks = [("mark%d" % m, corners[m]) for m in range(n_marks)]
+            marks = [(900000 + m, corners[m]) for m in range(n_marks)]
             out.append((f"crowd of {n_crowd} after {n_marks} marks", marks + crowd, n_marks + 2))
             if n_crowd <= 450:
                 out.append((f"crowd of {n_crowd} around {n_marks} marks",
